@@ -210,6 +210,20 @@ static void emu_feed(struct emu *e, const unsigned char *buf, int n)
 	}
 }
 
+/* the editor must neither stop its process group (^Z: kill(0, SIGSTOP)) nor run external commands
+ * made of generated keys: both are neutralised here */
+int __real_kill(pid_t pid, int sig);
+int __wrap_kill(pid_t pid, int sig)
+{
+	if (sig == SIGSTOP || pid == 0)
+		return 0;
+	return __real_kill(pid, sig);
+}
+int __wrap_execvp(const char *file, char *const argv[])
+{
+	_exit(127);
+}
+
 ssize_t __wrap_write(int fd, const void *buf, size_t n)
 {
 	if (in_editor && fd == 1) {
